@@ -501,7 +501,7 @@ def check(prop, tier="quick", seed=0, procs=None, verbose=False):
             "solver_seconds": round(sum(r.get("solver_seconds", 0) for r in results), 2),
             "unit_seconds": round(sum(r.get("seconds", 0) for r in results), 2),
             "fd_grid_points": sum(r.get("fd_points", 0) for r in results),
-            "second_solver_cvc5_on_z3_unsat_verdicts": {k: sum((r.get("second_opinion") or {}).get(k, 0) for r in results) for k in ("unsat", "sat", "none")},
+            "second_solver_cvc5_on_z3_unsat_verdicts": {k: sum((r.get("second_opinion") or {}).get(k, 0) for r in results) for k in ("unsat", "sat", "none", "skipped_over_budget")},
             "refuted": len(refuted),
             "obligations_of_shared_units_belonging_to_other_properties": excluded,
             "known_findings": [k.get("what") for k, _ in known_hits],
